@@ -3226,11 +3226,17 @@ func (db *DB) checksum(pageN uint32, newWALChecksums map[uint32]ltx.Checksum) (l
 	// Ignore blocks which have pages in the WAL.
 	blockN := pageChksumBlock(pageN) + 1
 	ignoredBlocks := make([]bool, blockN)
+	// Pages past pageN (e.g. truncated by a shrinking WAL transaction) can
+	// belong to blocks beyond blockN; those blocks are not summed at all.
 	for pgno := range db.wal.chksums {
-		ignoredBlocks[pageChksumBlock(pgno)] = true
+		if block := pageChksumBlock(pgno); block < blockN {
+			ignoredBlocks[block] = true
+		}
 	}
 	for pgno := range newWALChecksums {
-		ignoredBlocks[pageChksumBlock(pgno)] = true
+		if block := pageChksumBlock(pgno); block < blockN {
+			ignoredBlocks[block] = true
+		}
 	}
 
 	var chksum ltx.Checksum
